@@ -216,11 +216,11 @@ macro_rules! seq_rt {
     };
 }
 seq_rt!(c12_q_seq_vec_0, Vec<u16>, 0, |b: Vec<u16>| b);
-seq_rt!(c12_q_seq_vec_1, Vec<u16>, 1, |b: Vec<u16>| b);
+seq_rt!(c12_t_seq_vec_1, Vec<u16>, 1, |b: Vec<u16>| b);
 seq_rt!(c12_q_seq_vec_2, Vec<u16>, 2, |b: Vec<u16>| b);
 seq_rt!(c12_t_seq_vec_3, Vec<u16>, 3, |b: Vec<u16>| b);
 seq_rt!(c12_q_seq_vecdeque_0, VecDeque<u16>, 0, |b: Vec<u16>| b.into_iter().collect());
-seq_rt!(c12_q_seq_vecdeque_1, VecDeque<u16>, 1, |b: Vec<u16>| b.into_iter().collect());
+seq_rt!(c12_t_seq_vecdeque_1, VecDeque<u16>, 1, |b: Vec<u16>| b.into_iter().collect());
 seq_rt!(c12_t_seq_vecdeque_2, VecDeque<u16>, 2, |b: Vec<u16>| b.into_iter().collect());
 seq_rt!(c12_t_seq_vecdeque_3, VecDeque<u16>, 3, |b: Vec<u16>| b.into_iter().collect());
 seq_rt!(c12_q_seq_linkedlist_0, LinkedList<u16>, 0, |b: Vec<u16>| b.into_iter().collect());
@@ -267,6 +267,7 @@ macro_rules! hs {
         #[kani::stub(std::hash::RandomState::new, rs_stub)]
         #[kani::stub(alloc::fmt::format, fmt_stub)]
         #[kani::stub(std::string::String::from_utf8, from_utf8_stub)]
+        #[kani::stub(std::str::from_utf8, str_from_utf8_stub)]
         fn $name() $body
     };
 }
@@ -286,14 +287,33 @@ str_rt!(c12_t_str_string_2, String, 2, |s: String| s);
 str_rt!(c12_t_str_string_3, String, 3, |s: String| s);
 str_rt!(c12_q_str_boxstr_1, Box<str>, 1, |s: String| s.into_boxed_str());
 str_rt!(c12_q_str_arcstr_1, Arc<str>, 1, |s: String| Arc::from(s));
-str_rt!(c12_q_str_pathbuf_1, std::path::PathBuf, 1, |s: String| std::path::PathBuf::from(s));
 str_rt!(c12_t_str_boxstr_2, Box<str>, 2, |s: String| s.into_boxed_str());
 str_rt!(c12_t_str_arcstr_2, Arc<str>, 2, |s: String| Arc::from(s));
 str_rt!(c12_t_str_rcstr_2, Rc<str>, 2, |s: String| Rc::from(s));
 str_rt!(c12_t_str_cowstr_2, std::borrow::Cow<'static, str>, 2, |s: String| std::borrow::Cow::Owned(s));
-str_rt!(c12_t_str_pathbuf_2, std::path::PathBuf, 2, |s: String| std::path::PathBuf::from(s));
-str_rt!(c12_t_str_arcpath_2, Arc<std::path::Path>, 2, |s: String| Arc::from(std::path::PathBuf::from(s).as_path()));
-str_rt!(c12_t_str_boxpath_1, Box<std::path::Path>, 1, |s: String| std::path::PathBuf::from(s).into_boxed_path());
+
+// paths: compared by their encoded bytes (`PathBuf == PathBuf` parses components, which is out of
+// reach for symbolic bytes)
+macro_rules! path_rt {
+    ($name:ident, $ty:ty, $len:expr, $conv:expr) => {
+        hs!($name, 10, {
+            let v: $ty = ($conv)(ascii_string::<$len>());
+            let s: u8 = kani::any();
+            let (o, left, n) = rt(&v, s);
+            let (a, b) = (o.as_os_str().as_encoded_bytes(), v.as_os_str().as_encoded_bytes());
+            assert!(a.len() == b.len(), "path length preserved");
+            let mut i = 0;
+            while i < $len { assert!(a[i] == b[i], "path bytes preserved"); i += 1; }
+            assert!(left == 1, "decoder consumed exactly the encoded bytes");
+            kani::cover!(n == 1 + $len, "length prefix + bytes");
+            std::mem::forget((o, v));
+        });
+    };
+}
+path_rt!(c12_q_path_pathbuf_1, std::path::PathBuf, 1, |s: String| std::path::PathBuf::from(s));
+path_rt!(c12_t_path_pathbuf_2, std::path::PathBuf, 2, |s: String| std::path::PathBuf::from(s));
+path_rt!(c12_t_path_arcpath_2, Arc<std::path::Path>, 2, |s: String| Arc::from(std::path::PathBuf::from(s).as_path()));
+path_rt!(c12_t_path_boxpath_1, Box<std::path::Path>, 1, |s: String| std::path::PathBuf::from(s).into_boxed_path());
 
 // one symbolic scalar value as a string (all 1..4 byte UTF-8 encodings)
 hs!(c12_t_str_string_char, 12, {
@@ -315,7 +335,7 @@ h!(c12_t_seq_btreeset_2_symbolic_keys, 8, {
     kani::cover!(v.len() == 2, "two distinct");
     std::mem::forget(v);
 });
-h!(c12_q_seq_btreemap_2, 8, {
+h!(c12_t_seq_btreemap_2, 8, {
     // concrete keys (tree shape is constant-folded), symbolic values
     let x: [u16; 2] = kani::any();
     let mut v: BTreeMap<u8, u16> = BTreeMap::new();
@@ -325,7 +345,7 @@ h!(c12_q_seq_btreemap_2, 8, {
     kani::cover!(n == 9, "both values need 3 bytes");
     std::mem::forget(v);
 });
-h!(c12_q_seq_btreeset_2, 8, {
+h!(c12_t_seq_btreeset_2, 8, {
     let mut v: BTreeSet<u16> = BTreeSet::new();
     v.insert(40000);
     v.insert(7);
@@ -344,7 +364,7 @@ h!(c12_t_seq_btreemap_2_symbolic_keys, 8, {
     kani::cover!(v.len() == 2 && k[0] > k[1], "inserted in descending order");
     std::mem::forget(v);
 });
-h!(c12_q_seq_btreeset_0, 4, {
+h!(c12_q_seq_btreeset_0, 6, {
     let v: BTreeSet<u16> = BTreeSet::new();
     let n = check(&v);
     kani::cover!(n == 1, "only the length prefix");
